@@ -45,16 +45,17 @@ type gresp struct {
 }
 
 type ccase struct {
-	Idx     int     `json:"idx"`
-	Local   *prec   `json:"local"`
-	Last    int     `json:"last"` // 0 error, 1 not updated, 2 proof
-	LastP   *prec   `json:"lastp,omitempty"`
-	Get     []gresp `json:"get"` // answers for suffrage heights from, from+1, ...
-	Limit   int     `json:"limit"`
-	Keys    []int   `json:"keys"`
-	Delay   int     `json:"delay"`
-	CandOK  bool    `json:"cand_ok"`
-	Kind    string  `json:"kind"`
+	Idx    int     `json:"idx"`
+	Local  *prec   `json:"local"`
+	Last   int     `json:"last"` // 0 error, 1 not updated, 2 proof
+	LastP  *prec   `json:"lastp,omitempty"`
+	Get    []gresp `json:"get"` // answers for suffrage heights from, from+1, ...
+	Limit  int     `json:"limit"`
+	Keys   []int   `json:"keys"`
+	Delay  int     `json:"delay"`
+	Forced bool    `json:"forced"` // the arrival order given by Keys is enforced (gated), not approximated by delays
+	CandOK bool    `json:"cand_ok"`
+	Kind   string  `json:"kind"`
 }
 
 type cres struct {
@@ -63,6 +64,7 @@ type cres struct {
 	Out   [][2]int `json:"out"`  // (sh, sid) per returned proof; sid -1 = nil entry
 	Err   string   `json:"err"`
 	LastH int64    `json:"lasth"`
+	Walk  string   `json:"walk"` // "" = the returned proofs, walked with the real Prove(previous state), form a chain
 }
 
 // ---------------------------------------------------------------- real objects
@@ -160,6 +162,22 @@ func (w *world) chain(name string, n int, r *vh.Rand) []prec {
 	return out
 }
 
+// gatedProof wraps a real proof to learn when the job that received it has finished its locked
+// section: buildBatch calls SuffrageHeight() a third time right after prove() returned, still
+// under the lock.
+type gatedProof struct {
+	base.SuffrageProof
+	n    *int32
+	done chan struct{}
+}
+
+func (g gatedProof) SuffrageHeight() base.Height {
+	if atomic.AddInt32(g.n, 1) == 3 {
+		close(g.done)
+	}
+	return g.SuffrageProof.SuffrageHeight()
+}
+
 // ---------------------------------------------------------------- one case on the real builder
 
 var errRemote = errors.New("verif: remote fault")
@@ -174,6 +192,26 @@ func runReal(w *world, c ccase) cres {
 	}
 	var lastCand base.State
 	var inflight int32
+	// forced arrival order: the answer for offset i is held back until the job of the offset with
+	// the previous rank in the same batch has left its locked section
+	returned := make([]chan struct{}, len(c.Get))
+	proved := make([]chan struct{}, len(c.Get))
+	for i := range returned {
+		returned[i] = make(chan struct{})
+		proved[i] = make(chan struct{})
+	}
+	predOf := func(i int) int {
+		if !c.Forced || i < 0 || i >= len(c.Keys) || c.Keys[i] == 0 {
+			return -1
+		}
+		lo := (i / c.Limit) * c.Limit
+		for j := lo; j < lo+c.Limit && j < len(c.Keys); j++ {
+			if c.Keys[j] == c.Keys[i]-1 {
+				return j
+			}
+		}
+		return -1
+	}
 	b := isaac.NewSuffrageStateBuilder(networkID,
 		func(context.Context) (base.Height, base.SuffrageProof, bool, error) {
 			switch c.Last {
@@ -195,12 +233,28 @@ func runReal(w *world, c ccase) cres {
 			if i < 0 || i >= len(c.Get) {
 				return nil, false, nil
 			}
+			if j := predOf(i); j >= 0 {
+				select {
+				case <-returned[j]:
+					select {
+					case <-proved[j]:
+					case <-time.After(30 * time.Millisecond): // the predecessor failed or is not a proof
+					}
+				case <-time.After(2 * time.Second):
+				}
+			}
+			defer close(returned[i])
 			switch g := c.Get[i]; g.Kind {
 			case 0:
+				close(proved[i])
 				return nil, false, errRemote
 			case 1:
+				close(proved[i])
 				return nil, false, nil
 			default:
+				if c.Forced {
+					return gatedProof{SuffrageProof: w.proofs[g.P.key], n: new(int32), done: proved[i]}, true, nil
+				}
 				return w.proofs[g.P.key], true, nil
 			}
 		},
@@ -238,6 +292,32 @@ func runReal(w *world, c ccase) cres {
 		}
 		r := byHash[p.State().Hash().String()]
 		res.Out = append(res.Out, [2]int{int(p.SuffrageHeight().Int64()), r.SID})
+	}
+	// the property's own reading on the real objects: every returned proof is proved by the real
+	// SuffrageProof.Prove against the state of its predecessor (the first against the local state)
+	prevst := localstate
+	for i, p := range proofs {
+		if p == nil {
+			res.Walk = fmt.Sprintf("entry %d is nil", i)
+			break
+		}
+		if want := from + int64(i); p.SuffrageHeight().Int64() != want {
+			res.Walk = fmt.Sprintf("entry %d has suffrage height %d, want %d", i, p.SuffrageHeight(), want)
+			break
+		}
+		if prevst == nil && p.State().Height() != base.GenesisHeight {
+			res.Walk = fmt.Sprintf("entry %d is not a genesis proof but has no predecessor", i)
+			break
+		}
+		if prevst != nil && p.State().Previous() == nil {
+			res.Walk = fmt.Sprintf("entry %d has no previous state hash", i)
+			break
+		}
+		if perr := p.Prove(prevst); perr != nil {
+			res.Walk = fmt.Sprintf("entry %d is not proved against its predecessor: %v", i, perr)
+			break
+		}
+		prevst = p.State()
 	}
 	return res
 }
@@ -287,7 +367,7 @@ func genCases(w *world, seed uint64, n int) []ccase {
 		return g
 	}
 	kinds := []string{"honest", "honest", "missing", "error", "dup-prev", "dup-next", "below-local", "above-last", "foreign", "foreign-tail",
-		"bad-tree", "same-block-height", "late-genesis", "nil-previous", "last-foreign", "last-invalid", "last-error", "last-not-updated", "last-older", "cand-error", "swapped", "last-huge"}
+		"bad-tree", "same-block-height", "late-genesis", "nil-previous", "last-foreign", "last-invalid", "last-error", "last-not-updated", "last-older", "cand-error", "swapped", "last-huge", "last-stale-suffrage"}
 	var out []ccase
 	add := func(c ccase) {
 		c.Idx = len(out)
@@ -318,6 +398,80 @@ func genCases(w *world, seed uint64, n int) []ccase {
 		add(ccase{Local: &A[2], Last: 2, LastP: &A[7], Get: g2, Limit: 100, CandOK: true, Kind: "corpus-below-local"})
 		add(ccase{Local: nil, Last: 2, LastP: &A[3], Get: append([]gresp{{Kind: 2, P: &lateGenesis}}, mkGet(1, 3, A)...), Limit: 2, CandOK: true, Kind: "corpus-late-genesis"})
 	}
+	// remote's last proof at a block height above everything local but with a suffrage height at or
+	// below the local one (stale / foreign remote): Build takes it for new, there is nothing to fetch
+	stale := map[int]prec{}
+	for j := 0; j < 9; j++ {
+		stale[j] = w.mk(fmt.Sprintf("X%d", j), int64(j+1), A[13].BH+int64(5+j), &A[j], A[j].key, true, false)
+	}
+	for _, c := range [][2]int{{5, 2}, {5, 4}, {9, 0}, {3, 2}, {8, 8}} { // (local L, stale on top of j): sh = j+1 <= L, or L+1
+		if c[1] > 8 {
+			continue
+		}
+		p := stale[c[1]]
+		add(ccase{Local: &A[c[0]], Last: 2, LastP: &p, Get: nil, Limit: 3, CandOK: true, Kind: "corpus-last-stale-suffrage"})
+	}
+	// exhaustive: every arrival order of a batch of 3 and 4 (enforced) x every position of a splice
+	// to the foreign chain B (the remote's last proof is then B's, so only the link check can object)
+	var permsOf func(n int) [][]int
+	permsOf = func(n int) [][]int {
+		if n == 1 {
+			return [][]int{{0}}
+		}
+		var out [][]int
+		for _, p := range permsOf(n - 1) {
+			for k := 0; k <= len(p); k++ {
+				q := append(append(append([]int{}, p[:k]...), n-1), p[k:]...)
+				out = append(out, q)
+			}
+		}
+		return out
+	}
+	addForced := func(c ccase, keys []int) {
+		c.Idx = len(out)
+		c.Keys = keys
+		c.Forced = true
+		out = append(out, c)
+	}
+	for _, n := range []int{3, 4} {
+		for _, L := range []int{-1, 2} {
+			from := L + 1
+			var local *prec
+			if L >= 0 {
+				local = &A[L]
+			}
+			for _, perm := range permsOf(n) {
+				for at := -1; at < n; at++ { // -1: honest
+					g := mkGet(from, from+n-1, A)
+					lastp := &A[from+n-1]
+					kind := "forced-honest"
+					if at >= 0 {
+						kind = "forced-splice"
+						for j := at; j < n; j++ {
+							g[j] = gresp{Kind: 2, P: &B[from+j]}
+						}
+						lastp = &B[from+n-1]
+					}
+					for _, lim := range []int{n, n + 2} {
+						addForced(ccase{Local: local, Last: 2, LastP: lastp, Get: g, Limit: lim, CandOK: true, Kind: kind}, append([]int{}, perm...))
+					}
+				}
+			}
+		}
+	}
+	// two batches of 3, the same enforced order in both, splice at every position (incl. the batch boundary)
+	for _, perm := range permsOf(3) {
+		for at := 0; at < 6; at++ {
+			g := mkGet(1, 6, A)
+			for j := at; j < 6; j++ {
+				g[j] = gresp{Kind: 2, P: &B[1+j]}
+			}
+			addForced(ccase{Local: &A[0], Last: 2, LastP: &B[6], Get: g, Limit: 3, CandOK: true, Kind: "forced-splice"},
+				append(append([]int{}, perm...), perm...))
+		}
+		addForced(ccase{Local: &A[0], Last: 2, LastP: &A[6], Get: mkGet(1, 6, A), Limit: 3, CandOK: true, Kind: "forced-honest"},
+			append(append([]int{}, perm...), perm...))
+	}
 	{
 		g := mkGet(3, 7, A)
 		p := nilPrev[5]
@@ -344,6 +498,8 @@ func genCases(w *world, seed uint64, n int) []ccase {
 		c := ccase{Local: local, Last: 2, LastP: &A[E], Get: mkGet(from, E, A), Limit: limit, CandOK: true, Kind: kind}
 		if r.Chance(1, 3) {
 			c.Delay = r.Range(20, 100)
+		} else if r.Chance(1, 2) {
+			c.Forced = true
 		}
 		size := E - from + 1
 		at := r.Intn(size)
@@ -422,6 +578,12 @@ func genCases(w *world, seed uint64, n int) []ccase {
 			if at+1 < size {
 				c.Get[at], c.Get[at+1] = c.Get[at+1], c.Get[at]
 			}
+		case "last-stale-suffrage":
+			if L >= 1 {
+				p := stale[r.Intn(min(L, 9))] // suffrage height j+1 <= L, block height above all
+				c.LastP = &p
+				c.Get = nil
+			}
 		case "last-huge":
 			// the last proof claims a suffrage height far above what the remote serves
 			c.Get = c.Get[:at+1]
@@ -478,7 +640,7 @@ func main() {
 	}
 	res := vh.NewResult("real isaac.SuffrageStateBuilder.Build on chains of real isaacblock.SuffrageProof (suffrage heights up to 13, local state none or 0..9, limits 1..7, random arrival order by delays), in a child process; honest remotes and single malformations (missing, error, duplicate, below local, above last, foreign chain, bad tree proof, wrong block height, suffrage height 0 at a non-genesis block, nil previous state hash, foreign/invalid/older last proof, swapped); non-trivial = more than one batch or a malformation")
 	cases := &vh.Cases{Import: "From MV Require Import C18.Model.", Type: "case", CheckFn: "check", Shard: 300}
-	n := o.Pick(900, 20000)
+	n := o.Pick(1600, 20000)
 
 	from := 0
 	crashes := 0
@@ -540,8 +702,11 @@ func main() {
 				if bad == "" && (c.LastP == nil || r.Out[len(r.Out)-1][1] != c.LastP.SID) {
 					bad = "the chain does not end with the remote's last proof"
 				}
+				if bad == "" && r.Walk != "" {
+					bad = "walking the returned proofs with the real Prove: " + r.Walk
+				}
 				if bad != "" {
-					res.Fail("ok-but-not-a-chain", fmt.Sprintf("Build(%s, limit=%d, size=%d) returned nil error but %s", c.Kind, c.Limit, len(c.Get), bad), c)
+					res.Fail("ok-but-not-a-chain", fmt.Sprintf("Build(%s, limit=%d, size=%d, keys=%v) returned nil error but %s", c.Kind, c.Limit, len(c.Get), c.Keys, bad), c)
 				}
 			}
 		case 1:
